@@ -12,7 +12,7 @@ META = {
     "design_ref": "§6 C37, §5.5",
     "technique": "Lean 4 invariant proof by induction over operation histories (safety + progress of the sort loop) + differential correspondence on DiGraph",
     "text": "Lean theorems with no bound on history length, nodes or connections: every DiGraph reached by non-raising "
-    "add_nodes/add_edges/remove_nodes/remove_nodes_connections/sorted_nodes calls stores only sorted lists that are a "
+    "add_nodes/add_edges/remove_nodes/remove_nodes_connections/remove_successors_nodes/sorted_nodes calls stores only sorted lists that are a "
     "duplicate-free permutation of the remaining nodes with every node after all its predecessors "
     "(C37_stored_order_valid, invariant by induction); on an acyclic graph reading sorted_nodes always succeeds with such a "
     "list (C37_sorted_nodes: safety of the sort loop unconditionally, progress by a rank argument).  The model is tied to "
@@ -38,6 +38,8 @@ OBLIGATIONS = [
         "C37_sorting_progress",
         "C37_remove_before_sort",
         "C37_cycle_raises",
+        "C37_remove_successors_regression",
+        "C37_old_remove_successors_fails",
     )
 ]
 LEAN_TARGETS = ["PydraModel.Props.C37"]
@@ -60,6 +62,7 @@ def gen_history(rng, max_ops, max_nodes) -> list:
     rng.shuffle(rank)  # hidden rank keeping the graph acyclic: edge a->b only if rank[a] < rank[b]
     nodes, edges, wip, removed = [], [], [], set()
     ops = []
+    expect_raise = False  # set when the generator deliberately appends a call that must raise (it ends the history)
     fresh = list(range(max_nodes))
     rng.shuffle(fresh)
     for _ in range(rng.randint(2, max_ops)):
@@ -72,6 +75,7 @@ def gen_history(rng, max_ops, max_nodes) -> list:
                 new.append(rng.choice(nodes))  # duplicate name -> ValueError
             ops.append(["add_nodes", new])
             if bad and nodes:
+                expect_raise = True
                 break
             nodes += new
         elif r < 0.55 and len(nodes) >= 2:
@@ -84,9 +88,11 @@ def gen_history(rng, max_ops, max_nodes) -> list:
             if bad and removed:
                 new.append([rng.choice(sorted(removed)), nodes[0]])  # endpoint not in graph -> Exception
                 ops.append(["add_edges", new])
+                expect_raise = True
                 break
             ops.append(["add_edges", new])
             if wip and any(e[0] in wip for e in edges):
+                expect_raise = True
                 break  # add_edges re-validates old connections of nodes pending removal: raises
             edges += new
         elif r < 0.75 and nodes:
@@ -95,6 +101,7 @@ def gen_history(rng, max_ops, max_nodes) -> list:
                 cand = [n for n in nodes if n not in ready] or sorted(removed)
                 if cand:
                     ops.append(["remove_nodes", [rng.choice(cand)]])
+                    expect_raise = True
                     break
             if ready:
                 k = 1 if rng.random() < 0.7 else min(2, len(ready))
@@ -104,6 +111,22 @@ def gen_history(rng, max_ops, max_nodes) -> list:
                     nodes.remove(n)
                     wip.append(n)
                     removed.add(n)
+        elif r < 0.9 and wip and rng.random() < 0.5:
+            # remove_successors_nodes on a node marked for removal: drops its connections and every successor
+            n = rng.choice(wip)
+            ops.append(["remove_successors", n])
+            desc, todo = set(), [n]
+            while todo:
+                a = todo.pop()
+                for e in edges:
+                    if e[0] == a and e[1] not in desc:
+                        desc.add(e[1])
+                        todo.append(e[1])
+            wip.remove(n)
+            gone = {d for d in desc if d in nodes}
+            nodes = [x for x in nodes if x not in gone]
+            removed |= gone
+            edges = [e for e in edges if e[0] != n and e[1] not in gone]
         elif r < 0.9 and wip:
             k = 1 if rng.random() < 0.7 else len(wip)
             rc = wip[:k] if rng.random() < 0.5 else rng.sample(wip, k)
@@ -113,8 +136,9 @@ def gen_history(rng, max_ops, max_nodes) -> list:
                 edges = [e for e in edges if e[0] != n]
         else:
             ops.append(["read"])
-    ops.append(["read"])
-    return ops
+    if not expect_raise:
+        ops.append(["read"])
+    return {"ops": ops, "expect_raise": expect_raise}
 
 
 def names(l):
@@ -147,6 +171,8 @@ def impl_trace(ops):
                 g.remove_nodes_connections([nd(i) for i in op[1]])
             elif op[0] == "read":
                 g.sorted_nodes
+            elif op[0] == "remove_successors":
+                g.remove_successors_nodes(nd(op[1]))
             out = "ok"
         except Exception as e:  # canonical: class name only
             out = core.exc_tag(e)
@@ -192,8 +218,9 @@ def run_cases(ctx, cases):
         spec_ok = all(order_ok(t["state"]) for t in tr if t["outcome"] == "ok") and coherent
         if not raised:
             spec_ok = spec_ok and tr[-1]["state"]["sorted"] is not None
-        if raised and not c.get("expect_raise", False) and len(tr) == len(c["ops"]):
-            spec_ok = False  # the final read raised on an acyclic graph
+        if raised != bool(c.get("expect_raise", False)):
+            # a call of a valid history on an acyclic graph raised (or a call that must be refused was accepted)
+            spec_ok = False
         resorts = sum(1 for i, op in enumerate(c["ops"][: len(tr)]) if op[0] != "read" and i > 0 and tr[i - 1]["state"]["sorted"] is not None)
         n_edges = max((len(t["state"]["edges"]) for t in tr), default=0)
         ctx.count("raised:" + tr[-1]["outcome"] if raised else "completed")
@@ -207,6 +234,13 @@ CORPUS = [
     {"ops": [["add_nodes", [0]], ["remove_nodes", [0]], ["read"]]},
     {"ops": [["add_nodes", [3, 1]], ["read"], ["add_nodes", [2, 0]], ["add_edges", [[0, 1], [0, 2]]], ["add_edges", [[1, 3], [2, 3]]],
              ["remove_nodes", [0]], ["remove_conn", [0]], ["read"]]},
+]
+CORPUS += [
+    # D71 (repaired): successors listed depth-first in another order than the sorted list
+    {"ops": [["add_nodes", [0, 1, 3, 2]], ["add_edges", [[0, 1], [1, 2], [1, 3]]], ["read"], ["remove_nodes", [0]],
+             ["remove_successors", 0], ["read"]]},
+    {"ops": [["add_nodes", [0, 1, 2, 3, 4]], ["add_edges", [[0, 1], [1, 2], [3, 4], [3, 2]]], ["read"], ["remove_nodes", [0]],
+             ["remove_successors", 0], ["read"]]},
 ]
 CYCLE = {"ops": [["add_nodes", [0, 1]], ["add_edges", [[0, 1], [1, 0]]], ["read"]], "expect_raise": True}
 
@@ -231,11 +265,11 @@ def correspondence(ctx):
     ctx.judge(CYCLE, out, "ValueError", out not in ("HANG", "ok"), what="sorting a cyclic graph must raise, not hang")
     n = ctx.pick(600, 8000)
     mo, mn = ctx.pick((12, 6), (16, 7))
-    run_cases(ctx, [{"ops": gen_history(ctx.rng, mo, mn)} for _ in range(n)])
+    run_cases(ctx, [gen_history(ctx.rng, mo, mn) for _ in range(n)])
 
 
 def search(ctx):
-    run_cases(ctx, [{"ops": gen_history(ctx.rng, 16, 7)} for _ in range(ctx.pick(5000, 20000))])
+    run_cases(ctx, [gen_history(ctx.rng, 16, 7) for _ in range(ctx.pick(5000, 20000))])
 
 
 def replay(ctx, rec):
